@@ -105,10 +105,12 @@ def run(ctx):
     series = tu.config_data(cfg)
     kw = tu.config_kwargs(cfg)
 
-    def call(num_processors=1):
+    def call(num_processors=1, eps=None):
         tu.seed_all(cfg["seed"])
         k2 = dict(kw)
         k2["num_processors"] = num_processors
+        if eps is not None:
+            k2["min_meaningful_covariance"] = eps
         with tu.quiet(), warnings.catch_warnings():
             warnings.simplefilter("ignore")
             return fast_ticc.ticc_labels(series[0], **k2)
@@ -141,6 +143,11 @@ def run(ctx):
                 plans.append({"kind": "task", "mp": mp, "fail": [idx]})
             plans.append({"kind": "task", "mp": mp, "fail": [1, 2]})
             plans.append({"kind": "task", "mp": mp, "fail": [K + 0, K + 2]})
+        # the error NumPy's own linear algebra raises (eigh / inv: LinAlgError), with and without a covariance floor
+        # requested (the documented hyper-parameter min_meaningful_covariance): first round, every cluster
+        for idx in range(K):
+            plans.append({"kind": "task", "mp": False, "fail": [idx], "exc": "LinAlgError", "eps": [1e-6, 0.05, None][idx % 3]})
+        plans.append({"kind": "task", "mp": True, "fail": [1], "exc": "LinAlgError", "eps": 1e-3})
         for ph in ("repop", "stats", "opt-phase", "relabel"):
             for rnd in ((0, 1) if ph != "repop" else (1, 2)):
                 plans.append({"kind": "phase", "mp": False, "phase": ph, "round": rnd})
@@ -167,6 +174,8 @@ def run(ctx):
             # KeyError must surface as itself, not be re-interpreted by a front end
             exc_types = [FloatingPointError, IndexError, AttributeError, ValueError, KeyError, ZeroDivisionError]
             exc_type = exc_types[(min(fail) + (3 if mpflag else 0)) % len(exc_types)]
+            if plan.get("exc") == "LinAlgError":
+                exc_type = np.linalg.LinAlgError
 
             def failing(*a, _exc=exc_type, **k):
                 with counter.get_lock():
@@ -285,7 +294,7 @@ def run(ctx):
                             res = fast_ticc.ticc_joint_labels(series[0], **kw)
                         expect_exc = ("TypeError", "ticc_labels")
                     else:
-                        res = call(4 if mpflag else 1)
+                        res = call(4 if mpflag else 1, eps=plan.get("eps"))
                 except Exception as e:
                     err = e
             kids = multiprocessing.active_children()
